@@ -438,7 +438,7 @@ fn run_seq(sc: &Scenario, sid: u64) -> SeqOutcome {
                 };
                 sh.release_one();
                 let want = exits + 1;
-                if let Err(st) = await_log(&sh, |st| st.log.iter().filter(|e| matches!(e, Ev::Exit { .. })).count() >= want) {
+                if let Err(st) = await_log(&sh, |st| st.n_exit >= want) {
                     stuck!(st, "delivery");
                     break 'ops;
                 }
@@ -528,7 +528,7 @@ fn run_seq(sc: &Scenario, sid: u64) -> SeqOutcome {
         sh.open_all();
         let total = accepted.len();
         let was_alive = alive!() > 0;
-        match await_log(&sh, |st| st.log.iter().filter(|e| matches!(e, Ev::Exit { .. })).count() >= total) {
+        match await_log(&sh, |st| st.n_exit >= total) {
             Ok(()) => {
                 // wait for every thread that panicked to be gone so that panics() is exact
                 let ptids: Vec<u32> = sh.log().iter().filter_map(|e| if let Ev::Exit { out: Out::Panic, tid, .. } = e { Some(*tid) } else { None }).collect();
@@ -996,7 +996,7 @@ fn built_while_unwinding(r: &mut Runner) {
                     ok += 1;
                 }
             }
-            let _ = await_log(&self.sh, |st| st.log.iter().filter(|e| matches!(e, Ev::Exit { .. })).count() >= ok);
+            let _ = await_log(&self.sh, |st| st.n_exit >= ok);
             *self.out.lock().unwrap() = Some((q.panics(), q.submitted(), q.drained(), ok));
         }
     }
@@ -1184,7 +1184,7 @@ fn mode_compose(r: &mut Runner) {
         for k in 0..n {
             let _ = q.emit(&metric_text(&format!("stack{}.n{}", r.sid, k), &if k % 5 == 0 { Out::Err(0) } else { Out::Ok }, 0));
         }
-        let waited = await_log(&sh, |st| st.log.iter().filter(|e| matches!(e, Ev::Exit { .. })).count() >= n);
+        let waited = await_log(&sh, |st| st.n_exit >= n);
         {
             let mut rep = r.rep();
             rep.eval();
@@ -1228,8 +1228,8 @@ fn mode_compose(r: &mut Runner) {
                     expect_b.push(m("b", k));
                 }
             }
-            let wa = await_log(&sh_a, |st| st.log.iter().filter(|e| matches!(e, Ev::Exit { .. })).count() >= expect_a.len());
-            let wb = await_log(&sh_b, |st| st.log.iter().filter(|e| matches!(e, Ev::Exit { .. })).count() >= expect_b.len());
+            let wa = await_log(&sh_a, |st| st.n_exit >= expect_a.len());
+            let wb = await_log(&sh_b, |st| st.n_exit >= expect_b.len());
             let got = |sh: &Arc<Shared>| -> Vec<String> { sh.st.lock().unwrap_or_else(|e| e.into_inner()).log.iter().filter_map(|e| if let Ev::Enter { metric, .. } = e { Some(metric.clone()) } else { None }).collect() };
             let (ga, gb) = (got(&sh_a), got(&sh_b));
             // last handles go: both wrapped sinks are released
@@ -1410,7 +1410,7 @@ fn mode_compose(r: &mut Runner) {
         // come to rest: everything accepted (the first metric and the follow-ups that found room) handed over
         let waited = await_log(&sh, |st| {
             let n = accepted.lock().unwrap_or_else(|e| e.into_inner()).len();
-            n >= 2 && st.log.iter().filter(|e| matches!(e, Ev::Exit { .. })).count() >= n
+            n >= 2 && st.n_exit >= n
         });
         std::thread::sleep(std::time::Duration::from_millis(5));
         let acc: Vec<String> = accepted.lock().unwrap().clone();
@@ -1605,7 +1605,7 @@ fn mode_compose(r: &mut Runner) {
         let res: Vec<(String, Result<usize, String>)> = results.lock().unwrap_or_else(|e| e.into_inner()).clone();
         let accepted_by_inner: Vec<String> = res.iter().filter(|(_, r)| r.is_ok()).map(|(m, _)| m.clone()).collect();
         // ... and everything the inner queue accepted has reached the recording sink
-        let waited = await_log(&sh, |st| st.log.iter().filter(|e| matches!(e, Ev::Exit { .. })).count() >= accepted_by_inner.len());
+        let waited = await_log(&sh, |st| st.n_exit >= accepted_by_inner.len());
         let delivered: Vec<String> = sh.st.lock().unwrap_or_else(|e| e.into_inner()).log.iter().filter_map(|e| if let Ev::Enter { metric, .. } = e { Some(metric.clone()) } else { None }).collect();
         let label = format!("compose {} inner capacity {}", if through_handler { "handler->queue" } else { "queue->queue" }, inner_cap.map(|c| c.to_string()).unwrap_or_else(|| "unbounded".into()));
         {
@@ -1708,7 +1708,7 @@ fn mode_slow_drop(r: &mut Runner) {
             }
         }
         sh.open_all();
-        let res = await_log(&sh, |st| st.log.iter().filter(|e| matches!(e, Ev::Exit { .. })).count() >= accepted)
+        let res = await_log(&sh, |st| st.n_exit >= accepted)
             .and_then(|_| await_log(&sh, |st| st.log.iter().any(|e| matches!(e, Ev::SinkDrop { .. }))))
             .and_then(|_| await_no_library_thread());
         if let Err(st) = res {
